@@ -388,10 +388,22 @@ class Scenario(object):
     pass
 
 
+class LazyIterable(object):
+    """a non-callable iterable whose iteration pulls from the simulated source"""
+
+    def __init__(self, src):
+        self._src = src
+
+    def __iter__(self):
+        return self._src
+
+
 def gen_scenario(tape):
     sc = Scenario()
     sc.infinite = tape.chance(1, 4, "infinite")
-    sc.form = tape.choice(["sequence", "source"], "form")
+    # source: the flow comes from a callable first element; source-iterable: from an iterable
+    # (non-callable) first element
+    sc.form = tape.choice(["sequence", "source", "source-iterable"], "form")
     sc.with_context = bool(tape.draw(2, "with-context"))
     n = 1 + tape.draw(6, "nelems")
     counter = [0]
@@ -477,6 +489,8 @@ def execute(sc, res, fault_at, log):
         log.ev("build")
         if sc.form == "sequence":
             gen = lena.core.Sequence(*els).run(src)
+        elif sc.form == "source-iterable":
+            gen = lena.core.Source(LazyIterable(src), *els)()
         else:
             gen = lena.core.Source(src, *els)()
         log.ev("run")
